@@ -52,7 +52,13 @@ OPS = ["set_cell", "get_cell", "slice_get", "slice_set", "field_op", "flatten", 
 _V = None
 
 
+_SETUP_DONE = []
+
+
 def setup():
+    if _SETUP_DONE:
+        return
+    _SETUP_DONE.append(1)
     global _V
     from .. import core
 
